@@ -151,7 +151,8 @@ impl<'a> ReadBytesExt for &'a [u8] {
 }
 
 // arrow2::array::MutablePrimitiveArray<T>: abstract view = Seq<Option<T>> (None = null slot)
-pub struct MutablePrimitiveArray<T> { pub v: Vec<Option<T>> }
+// (model fields: v = slots incl. nulls, vals = dense value buffer; only reachable through the contracts below)
+pub struct MutablePrimitiveArray<T> { pub v: Vec<Option<T>>, pub vals: Vec<T> }
 impl<T> MutablePrimitiveArray<T> {
 	pub open spec fn view(&self) -> Seq<Option<T>> { self.v@ }
 	#[verifier::external_body]
@@ -163,7 +164,7 @@ impl<T> MutablePrimitiveArray<T> {
 	#[verifier::external_body]
 	pub fn len(&self) -> (r: usize) ensures r == self@.len() { unimplemented!() }
 	// values(): the dense value buffer; a null slot holds an unspecified value (arrow2 stores T::default())
-	pub uninterp spec fn values_spec(&self) -> Seq<T>;
+	pub open spec fn values_spec(&self) -> Seq<T> { self.vals@ }
 	#[verifier::external_body]
 	pub broadcast proof fn axiom_values_spec(&self)
 		ensures #[trigger] self.values_spec().len() == self@.len(),
